@@ -590,6 +590,9 @@ def c01_8(ck, prog):
     claimed range, a FALSE answer never ends in DBUS_VALID, and the UTF-8 machinery is the specification's."""
     from rules import C16
     C16.c16_1(ck, prog, rid='C01.8', utf8_only=True)
+    r13 = ck.rule('C01.13', "the descriptor-reading wrappers of dbus-sysdeps-unix.c (_dbus_read, _dbus_read_socket_with_unix_fds) grow the caller's string once per call and cut it back to what was really read on every way out", 'PAIR', breaks='bytes nobody sent (the stale image of earlier messages left in the '
+                  'buffer) are parsed as a message after a read that failed with truncated control data', floor=2)
+    lib.read_wrappers_keep_buffer(prog, r13)
     r = ck.rule('C01.8b', 'the body validator hands every STRING / OBJECT_PATH value whole to its grammar '
                 'validator and array element codes to dbus_type_is_valid; a FALSE answer never ends in '
                 'DBUS_VALID; the UTF-8 scanner rejects NUL before every advance', 'DOM',
